@@ -348,7 +348,7 @@ func c11Gen(r *vh.Rand, quick bool) *c11Case {
 
 // ---------- parent side ----------
 
-var c11RaceRe = regexp.MustCompile(`(?m)^  (\S+)\(`)
+var c11RaceRe = regexp.MustCompile(`(?m)^  ([^\s\[\(]+(?:\(\*[A-Za-z0-9_]+\))?[^\s\[\(]*)`)
 
 func c11IsRaceBuild() bool {
 	if bi, ok := debug.ReadBuildInfo(); ok {
@@ -453,6 +453,9 @@ func c11RaceSite(report string) string {
 	first := ""
 	for _, m := range c11RaceRe.FindAllStringSubmatch(report, -1) {
 		f := m[1]
+		if strings.HasSuffix(f, ".") { // generic receiver: name cut at the bracket
+			continue
+		}
 		if first == "" {
 			first = f
 		}
@@ -514,9 +517,6 @@ func c11Sig(c *c11Case, what string) string {
 	}
 	if len(c11LayoutOf(&c.G).Graphs) > 1 {
 		extra += ":nested"
-	}
-	if c.Runs > 1 {
-		extra += ":concurrent"
 	}
 	return "C11:" + what + ":mode=" + c.G.Mode + extra
 }
@@ -751,8 +751,12 @@ func c11Compare(ctx *vh.Ctx, c *c11Case, o *c11CaseObs) error {
 				if f.Node.Sub != nil {
 					so = subOut(gid)
 				}
-				ops, _, _ := c11NodeOps(f.Node, gid, so)
-				tj = append(tj, map[string]any{"in": c11Str(obsIn(gid)), "ops": ops})
+				ops, pl, bl := c11NodeOps(f.Node, gid, so)
+				tot := pl + bl
+				if f.Node.Post != "" {
+					tot++
+				}
+				tj = append(tj, map[string]any{"in": c11Str(obsIn(gid)), "ops": ops, "cut": []int{0, pl, pl + bl, tot}})
 			}
 			// the state objects of this cell: the generator's and the ones restored on resume
 			var sts []c11StateObs
@@ -848,6 +852,11 @@ func c11Compare(ctx *vh.Ctx, c *c11Case, o *c11CaseObs) error {
 					return nil
 				}
 			}
+			if resumed && !vh.CanonEq(implFinal, modelFinalSt) && m.AtInt != nil &&
+				vh.CanonEq(map[string]any{"ctr": m.AtInt.Ctr, "seq": m.AtInt.Seq}, map[string]any{"ctr": first.Ctr, "seq": first.Seq}) {
+				dis("state-after-resume", fmt.Sprintf("run %d: the state at the interrupt agrees with the model, the final state of the resumed run does not: it is not modifier(state at interrupt) followed by the resumed operations", ri), modelFinalSt, implFinal)
+				return nil
+			}
 			if !vh.CanonEq(implFinal, modelFinalSt) {
 				dis("lost-update", fmt.Sprintf("run %d: final state of cell %d differs from the serial replay of its own operation log", ri, cell), modelFinalSt, implFinal)
 				return nil
@@ -867,9 +876,12 @@ func c11Compare(ctx *vh.Ctx, c *c11Case, o *c11CaseObs) error {
 				f := l.Nodes[gid]
 				no := run.Nodes[f.Path]
 				vals := m.Vals[i]
-				_, preLen, bodyLen := c11NodeOps(f.Node, gid, "")
-				modelFinal[gid] = vals[len(vals)-1]
-				modelAfterPre[gid] = vals[preLen]
+				if len(vals) != 4 {
+					return fmt.Errorf("oracle: vals of task %d has %d entries", i, len(vals))
+				}
+				// vals: input, after the pre-handler, after the body, after the post-handler
+				modelFinal[gid] = vals[3]
+				modelAfterPre[gid] = vals[1]
 				chk := func(stage string, got *string, want string) bool {
 					if got == nil || *got != want {
 						dis("value-flow-"+stage, fmt.Sprintf("run %d node %s: %s is %q on the implementation, %q in the model", ri, f.Path, stage, c11Str(got), want), want, no)
@@ -896,7 +908,7 @@ func c11Compare(ctx *vh.Ctx, c *c11Case, o *c11CaseObs) error {
 						dis("body-count", fmt.Sprintf("run %d node %s: body ran %d times", ri, f.Path, no.BodyN), 1, no)
 						return nil
 					}
-					if !chk("body-received", no.BodyIn, vals[preLen]) || !chk("body-returned", no.BodyOut, vals[preLen+bodyLen]) {
+					if !chk("body-received", no.BodyIn, vals[1]) || !chk("body-returned", no.BodyOut, vals[2]) {
 						return nil
 					}
 				}
@@ -905,7 +917,7 @@ func c11Compare(ctx *vh.Ctx, c *c11Case, o *c11CaseObs) error {
 						dis("handler-count", fmt.Sprintf("run %d node %s: post-handler ran %d times", ri, f.Path, no.PostN), 1, no)
 						return nil
 					}
-					if !chk("post-received", no.PostIn, vals[preLen+bodyLen]) || !chk("post-returned", no.PostOut, vals[len(vals)-1]) {
+					if !chk("post-received", no.PostIn, vals[2]) || !chk("post-returned", no.PostOut, vals[3]) {
 						return nil
 					}
 				}
